@@ -18,6 +18,7 @@ import (
 	"strings"
 	"sync"
 	"sync/atomic"
+	"syscall"
 	"time"
 
 	"github.com/go-spring/log"
@@ -93,11 +94,18 @@ func cmdCrashChild(f hx.Flags, r *hx.Result) {
 		cfg["appender.out.layout.type"] = layout
 	}
 	refs := []sys.Ref{{Ref: "out"}}
+	levelled := twin && f.Str("levelled", "") != "" // the two appenders select by level: everything / WARN and above
+	if levelled {
+		refs[0].Level = "TRACE~FATAL"
+	}
 	if twin {
 		if f.Str("layoutat", "appender") != "logger" {
 			cfg["appender.out2.layout.type"] = layout
 		}
 		refs = append(refs, sys.Ref{Ref: "out2"})
+		if levelled {
+			refs[1].Level = "WARN"
+		}
 	}
 	if rollingLogger {
 		rl := map[string]string{"fileDir": dir, "fileName": "c.log", "rotation": "h", "layout.type": layout}
@@ -151,6 +159,12 @@ func cmdCrashChild(f hx.Flags, r *hx.Result) {
 		}
 	}
 	rawEvery := f.Int("rawevery", 0)
+	if kind == "console" && f.Str("failfirst", "") != "" {
+		// the console stream fails once (a full disk, a signal) before the calls that count: that one line may be lost,
+		// nothing after it
+		log.Stdout = &failOnce{w: os.Stdout}
+		log.Info(ctx, tag, log.Int("id", 9999), log.String("pad", "lost to the failing write"), log.Int("end", 9999))
+	}
 	var wg sync.WaitGroup
 	for g := 1; g <= goroutines; g++ {
 		wg.Add(1)
@@ -182,7 +196,7 @@ func cmdCrashChild(f hx.Flags, r *hx.Result) {
 								returned = false
 							}
 						}()
-						if separate && i%2 == 0 {
+						if (separate || levelled) && i%2 == 0 {
 							log.Warn(ctx, tag, fields...)
 						} else {
 							log.Info(ctx, tag, fields...)
@@ -214,6 +228,19 @@ func cmdCrashChild(f hx.Flags, r *hx.Result) {
 		time.Sleep(30 * time.Second) // wait to be killed
 	}
 	os.Exit(0)
+}
+
+// failOnce is a stream whose first write fails.
+type failOnce struct {
+	w    *os.File
+	done int32
+}
+
+func (f *failOnce) Write(b []byte) (int, error) {
+	if atomic.CompareAndSwapInt32(&f.done, 0, 1) {
+		return 0, syscall.ENOSPC
+	}
+	return f.w.Write(b)
 }
 
 // crashPoison cannot be encoded: its MarshalJSON panics.
@@ -313,8 +340,15 @@ func cmdCrash(f hx.Flags, r *hx.Result) {
 				args = append(args, "--gens", "3")
 			}
 			twin := kind != "console" && kind != "rollinglogger" && c.Twin
+			levelled := twin && n%2 == 0 // with the logger-level layout: the logger formats once and serves level-selecting appenders
 			if twin {
 				args = append(args, "--twin", "1")
+			}
+			if levelled {
+				args = append(args, "--levelled", "1")
+			}
+			if kind == "console" && n%4 == 1 {
+				args = append(args, "--failfirst", "1")
 			}
 			if c.How == "exit" {
 				args = append(args, "--exitafter", strconv.Itoa(c.K))
@@ -386,7 +420,15 @@ func cmdCrash(f hx.Flags, r *hx.Result) {
 				wantCount = 2 // both appenders append their own copy; none may overwrite the other's
 			}
 			desc["twin_appenders"] = twin
+			desc["level_selecting_appenders"] = levelled
 			for _, id := range acked {
+				wantCount := wantCount
+				if levelled && id < 9000 && !(rawEvery && id%1000%3 == 0) && id%1000%2 == 1 {
+					wantCount = 1 // an INFO event: only the appender that takes everything
+				}
+				if levelled && id >= 9000 {
+					wantCount = 1
+				}
 				if complete[id] != wantCount {
 					r.Violate("acked-line-missing:"+kind, desc, "call %d was acknowledged before the %s but its complete line occurs %d times in the target", id, c.How, complete[id])
 					break
